@@ -80,6 +80,16 @@ def make_renderers(env: "Env") -> Dict[str, Dict[str, Any]]:
                     return tag_text(_fl, model)
                 klass.model_renderers[getattr(C, tn)] = handler
             out[lang][flavour] = klass
+        # "sub": a partial custom renderer that subclasses the default one, has its own registry and
+        # *inherits* render_db (the documented way to customise a few element types)
+        fl = f"sub{lang}"
+        base = env.DefaultSQL if lang == "sql" else env.DefaultDBML
+        klass = type(f"Sub{lang.upper()}Renderer", (base,), {"model_renderers": {}, "__module__": "verif.sim"})
+        for tn in TAGGED_TYPES_PARTIAL:
+            def handler(model, _fl=fl):
+                return tag_text(_fl, model)
+            klass.model_renderers[getattr(C, tn)] = handler
+        out[lang]["sub"] = klass
     return out
 
 
